@@ -94,9 +94,18 @@ def gen_program(rng, spec):
                     return ("i", rng.randrange(0, n)), 1
                 a = rng.randrange(0, n)
                 b = rng.randrange(a + 1, n + 1)
-                st = rng.choice([None, None, 2])
+                st = rng.choice([None, None, 2, 3])
+                # open-ended bounds (`::2`, `1:`, `:2`) as well as explicit ones
+                if rng.random() < 0.4:
+                    a = None
+                if rng.random() < 0.4:
+                    b = None
                 return ("sl", a, b, st), len(range(n)[a:b:st])
             (i1, n1), (i2, n2) = ix(nx), ix(ny)
+            if rng.random() < 0.25:
+                # both axes full range, with or without a stride: `g[::2, :]`, `g[:, ::3]`, `g[:, :]`
+                s1, s2 = rng.choice([None, 2, 3]), rng.choice([None, None, 2])
+                (i1, n1), (i2, n2) = (("sl", None, None, s1), len(range(nx)[::s1])), (("sl", None, None, s2), len(range(ny)[::s2]))
             prog.append(("item", gi, i1, i2))
             grids[len(prog) - 1] = (n1, n2)
         elif r < 0.82 and gi is not None:
@@ -124,7 +133,7 @@ def gen_program(rng, spec):
 def src_index(ix):
     if ix[0] == "i":
         return str(ix[1])
-    return f"{ix[1]}:{ix[2]}" + (f":{ix[3]}" if ix[3] is not None else "")
+    return f"{'' if ix[1] is None else ix[1]}:{'' if ix[2] is None else ix[2]}" + (f":{ix[3]}" if ix[3] is not None else "")
 
 
 def source(prog, opts):
